@@ -357,11 +357,15 @@ def contracts(T: Types, reg: Registry, G: dict, variant: str = "C11"):
         i = z3.Const(fresh_name("nc"), ID.sort())
         return z3.ForAll([i], z3.Implies(held_me(T, rec(c), i, me(c)), held_me(T, rec0(c), i, me(c))))
     flag_only_down = ("the-running-flag-only-ever-goes-down", lambda c: z3.Implies(c.f("running"), c.old("running")))
+    ORC = Opt(T.RunnerCtx)
+    acting = lambda c: z3.If(ORC.is_some(c.arg("runner_ctx")), me_of(T, ORC.val(c.arg("runner_ctx"))), me(c))
     kill = Contract(
         key=f"{BR}:BaseRunner._kill_and_reroute", shape="ThreadRunner", params={"invocation_id": ID, "runner_ctx": Opt(T.RunnerCtx)},
         defaults={"runner_ctx": lambda eng, st: NONE},
-        requires=wellformed + [("acting-for-itself", lambda c: Opt(T.RunnerCtx).is_none(c.arg("runner_ctx"))),
-                               ("the-invocation-is-one-of-the-runner's-table", lambda c: tracked(T, rec(c), q(c), kid(c), me(c)))],
+        # acting for itself (thread runner) or, with an explicit context, for a worker of its own whose process is gone or is the caller
+        # itself (ProcessRunner._on_stop after kill+join, the finally block of a persistent worker): the invocation is then held under that id
+        requires=wellformed + [("the-acting-context-has-an-id", lambda c: z3.Length(acting(c)) > 0),
+                               ("the-invocation-is-held-under-the-acting-id-or-already-done", lambda c: tracked(T, rec(c), q(c), kid(c), acting(c)))],
         frame=WORLD_FRAME + ["running"],
         cases=[Case("killed-and-rerouted-or-already-done", ensures=[
             ("C11:the-invocation-is-final-or-back-in-the-queue-available-and-unowned", lambda c: done(T, rec(c), q(c), kid(c), me(c))),
